@@ -358,6 +358,36 @@ def obligations_for(ur, prop):
     return total, per_fn, lit
 
 
+def run_bounded(b, tier, use_cache):
+    """run a BOUNDED stand-in against the real code (scratch copy of /repo); returns dict"""
+    n = b["thorough"] if tier == "thorough" else b["quick"]
+    h = hashlib.sha256()
+    for root, _d, files in sorted(os.walk("/repo/src")):
+        for fn in sorted(files):
+            if fn.endswith(".rs"):
+                h.update(fn.encode()); h.update(open(os.path.join(root, fn), "rb").read())
+    for fn in b.get("files", []): h.update(open(os.path.join(VERIF, fn), "rb").read())
+    h.update(str(n).encode())
+    key = "bounded_" + b["name"] + "_" + h.hexdigest()
+    cp = os.path.join(CACHE_DIR, key + ".json")
+    if use_cache and os.path.exists(cp):
+        try:
+            r = json.load(open(cp)); r["cached"] = True; return r
+        except Exception: pass
+    t0 = time.time()
+    cmd = [x.replace("{n}", str(n)) for x in b["cmd"]]
+    pr = sh(cmd, cwd=VERIF)
+    out = pr.stdout
+    summ = [l for l in out.split("\n") if l.startswith("SUMMARY")]
+    wit = [l for l in out.split("\n") if l.startswith("WITNESS")]
+    r = {"name": b["name"], "bound": "%s <= %d" % (b["bound_what"], n), "cmd": " ".join(cmd), "wall_s": round(time.time() - t0, 1),
+         "summary": summ[0] if summ else None, "witnesses": wit[:40], "ok": bool(summ) and not wit and " disagreements=0 " in (summ[0] + " "),
+         "harness_error": None if summ else (out[-1500:] + pr.stderr[-500:]), "cached": False}
+    os.makedirs(CACHE_DIR, exist_ok=True)
+    json.dump(r, open(cp, "w"))
+    return r
+
+
 def decide(prop, tier="quick", seed=0):
     t0 = time.time()
     pc = CONFIG["properties"].get(prop)
@@ -444,9 +474,32 @@ def decide(prop, tier="quick", seed=0):
                 violations.append({"unit": u, "function": fname, "obligation": ob, "message": f["message"], "line": ln,
                                    "rendered": f["rendered"], "item": item})
         evidence_units.append(info)
+    # ---------------- bounded stand-ins (labelled bounded; never counted as proved)
+    bounded_results = []
+    bounded_violations = []
+    for b in pc.get("bounded_runs", []):
+        br = run_bounded(b, tier, use_cache)
+        bounded_results.append({k: br[k] for k in ("name", "bound", "cmd", "wall_s", "summary", "cached")} | {"exhaustive_within_bound": True, "what": b["what"]})
+        if br["harness_error"]:
+            undecided.append("bounded stand-in %s did not run: %s" % (b["name"], br["harness_error"][-300:]))
+        elif not br["ok"]:
+            hit = None
+            for k in known:
+                if k["property"] == prop and k.get("status") == "known" and k["obligation"] == b["name"]: hit = k
+            if hit: known_hits.append((hit, None))
+            else: bounded_violations.append((b, br))
     wall = time.time() - t0
     # ---------------- report
     rc = 0
+    for b, br in bounded_violations:
+        os.makedirs(os.path.join(VERIF, "replay"), exist_ok=True)
+        h = hashlib.sha256("\n".join(br["witnesses"]).encode()).hexdigest()[:10]
+        rp = os.path.join(VERIF, "replay", "%s-%s-%s.json" % (prop, b["name"], h))
+        with open(rp, "w") as fo:
+            json.dump({"property": prop, "obligation": b["name"], "kind": "bounded stand-in on the real code (not a proof)", "bound": br["bound"],
+                       "failing_inputs": br["witnesses"], "summary": br["summary"], "rerun": br["cmd"]}, fo, indent=1)
+        print("VIOLATION property=%s replay=%s obligation=%s failing-input=%s" % (prop, rp, b["name"], (br["witnesses"][0] if br["witnesses"] else "see replay")[:160]))
+        rc = 1
     os.makedirs(os.path.join(VERIF, "replay"), exist_ok=True)
     for k, f in known_hits:
         print("KNOWN-FINDING: property=%s %s" % (prop, k["what"]))
@@ -479,13 +532,13 @@ def decide(prop, tier="quick", seed=0):
             "solver_time_ms": smt_ms,
             "obligation_counting_rule": "per extracted function serving this property: number of requires/ensures/invariant/decreases clauses labelled with the property (or unlabelled in a function that serves it) + 1 for Verus' native body check (index bounds, unwrap, overflow, panic!, termination); plus labelled lemma/client lines. A clause counts as discharged when Verus reports no failure mapped to it.",
             "not_covered": pc.get("not_covered", []),
-            "bounded_parts": pc.get("bounded", []),
+            "bounded_parts": bounded_results,
             "known_findings_reproduced": [k["what"] for k, _ in known_hits],
             "undecided": undecided,
         },
         "assumptions": sorted(set(assumptions)) + pc.get("assumptions", []),
         "wall_s": round(wall, 2),
-        "violations": len(violations),
+        "violations": len(violations) + len(bounded_violations),
     }
     if rc == 2 or obligations == 0 or discharged == 0:
         # nothing was decided by this run: do not present it as proof-level evidence
